@@ -189,6 +189,21 @@ PROPS = {
         'level_note': 'Trusted: rustc front end + MIR, the extractor, evaluated constants (MAX_LOAD, INIT_CAPACITY).',
         'technique': 'who-may-construct / who-may-write + dominator rules over resolved MIR (rustc_private driver), compile_fail witness for the constructor visibility',
     },
+    'C13': {
+        'module': 'c13',
+        'explanation': 'Structural clauses only: no unchecked byte->string construction exists anywhere in the workspace and strings enter '
+                       'the heap as &str; every indexing operation (Index/IndexMut calls and MIR index projections) in vm/core/object whose '
+                       'index derives from an operand-stack value gets it through try_as_bounded_index/make_bounded_range; both endpoints of '
+                       'every str range-index are checked character boundaries on a dominating path or come from the boundary-scanning '
+                       'iterator. Byte-exact agreement of results with a reference model is NOT decided.',
+        'assumptions': COMMON_ASSUME,
+        'not_decided': ['byte-exact results of every string function and of negative-index arithmetic (numerical/behavioural: needs '
+                        'execution against a model)', 'documented error kind per failing input'],
+        'level_text': 'Decides U1-U3 (validity of produced strings, index funnel, boundary checks); values returned are not decided.',
+        'design_ref': 'DESIGN.md section 1, C13',
+        'level_note': 'Trusted: rustc front end + MIR, the extractor, std str/String semantics.',
+        'technique': 'expected-zero API lint + index-provenance dataflow + dominator rules over resolved MIR (rustc_private driver)',
+    },
 }
 
 NOT_APPLICABLE = {
